@@ -102,7 +102,9 @@ def judge_parse(ctx, mon, cfg, parser, prods, start, toks, text, expected, smart
         # (the caller keeps ONE list object for its lines and fills it anew for every text)
         _LINES[:] = text.split("\n")
     try:
-        tree = parser.parse(_LINES if as_lines else text, do_cleanup=False, **kw)
+        # (lines come as the list or, every other time, as a one-shot iterator over it)
+        src = text if not as_lines else _LINES if len(text) % 2 else iter(_LINES)
+        tree = parser.parse(src, do_cleanup=False, **kw)
     except llparser.ParsingError:
         ctx.count("rejected")
         return False
@@ -180,7 +182,9 @@ def run_case(ctx, mon, cfg_id, terms, prods, inputs_spec=None, rng=None, any_spe
     if inputs_spec is None:
         inputs_spec = []
         for toks in build_inputs(rng, prods, start, terms):
-            text, expected = cfg.render(rng, toks, dense=rng.random() < 0.2)
+            toks, text, expected = cfg.render_checked(rng, toks, dense=rng.random() < 0.2)
+            if toks is None:
+                continue
             inputs_spec.append((toks, text, expected, rng.random() < 0.3))
         # the optional start symbol of parse(): sentences of another non-terminal
         others = [nt for nt in prods if nt != start]
@@ -188,7 +192,9 @@ def run_case(ctx, mon, cfg_id, terms, prods, inputs_spec=None, rng=None, any_spe
             nt = rng.choice(others)
             snt = gram.gen_sentence(prods, rng, nt)
             if snt is not None:
-                text, expected = cfg.render(rng, snt, dense=rng.random() < 0.2)
+                snt, text, expected = cfg.render_checked(rng, snt, dense=rng.random() < 0.2)
+                if snt is None:
+                    continue
                 inputs_spec.append((snt, text, expected, False, nt))
     if rng is not None and cfg.name == "letters+synonyms":
         # a part of a sentence is hidden in an end-of-line comment, behind a character that some
